@@ -25,7 +25,8 @@ func TestMain(m *testing.M) {
 	lib.Extra("rule", "rapid-generated request-reply programs: 1..32 concurrent callers on one shared reply topic (GoChannel), per command a handler script (k failing attempts with an error text, then a result echoing the command id and the attempt), AckCommandErrors on/off, optional ListenForReplyTimeout, "+
 		"caller behaviours {drain all replies then cancel, read one then cancel late without reading further, never read then cancel, cancel before the reply, let the timeout fire, SendWithReply}. Commands travel through a scripted subscriber (fresh-copy redelivery after Nack) so that every settlement is observed; the reply publisher is wrapped to sample the command's settlement inside the reply Publish. "+
 		"Oracle: every handler reply a caller receives echoes its own command id with the scripted error text; each command delivery is unsettled inside its reply Publish and afterwards acked/nacked as AckCommandErrors says; after cancel/timeout OnListenForReplyFinished ran exactly once per request (checked before the caller drains), the reply channel is closed once drained, no ListenForNotifications goroutine remains. "+
-		"Non-trivial: >=2 concurrent requests and >=1 caller that stops reading or cancels late.")
+		"Non-trivial: >=2 concurrent requests and >=1 caller that stops reading or cancels late."+
+		" Handler errors may be pkg/errors annotations (the whole text travels); a caller may arrive with a context that has ended already (behaviour 8).")
 	lib.Extra("assumptions", []string{
 		"the terminal Reply{Error: ReplyTimeoutError} emitted on cancel/timeout is not a handler reply (may also be dropped when nobody reads)",
 		"a caller has to see at least the replies produced before it stopped reading; no order between replies of different deliveries",
